@@ -372,7 +372,10 @@ class Impute(EnvironmentFilter):
                         context[k] = imputations[k]
                         if k in impute_binary:
                             is_missing[impute_binary[k]] = 1
-                context += is_missing
+                if is_missing:
+                    #not every mutable dense container can grow (e.g., SparseDense)
+                    if not isinstance(context,list): context = interaction['context'] = list(context)
+                    context += is_missing
 
             elif is_sparse:
 
